@@ -25,7 +25,8 @@ EXHAUSTIVE_SUBDOMAINS = []
 ASSUMPTIONS = ["pulse samples carry the amplitude plus a small share of the noise; low samples carry noise only", "regime R2 (noise between 0.2 x and 0.316 x the weakest pulse, i.e. 10-13.5 dB SNR) was the recorded finding eof-threshold-below-noise until fix b07124f; it is now judged as strictly as R1",
                "R1 = noise peak below the demodulator's own end-of-frame threshold (0.2 x strongest pulse of the frame)"]
 REQUIRED = ["r1_buffers", "r2_buffers", "second_buffer", "second_buffer_short_tail", "min_gap_after_short", "min_gap_after_long", "df17", "df20", "df21", "df4", "df5", "df11", "offset_even", "offset_odd",
-            "corrupted_df17_rejected", "weakest_pulse_exactly_10dB_above_floor", "pure_noise", "multi_frame", "same_frame_twice_in_a_row", "second_reader_alive", "reader_in_debug_mode", "sessions", "session_buffer_11_or_later", "big_busy_first_buffer", "buffer_longer_than_nominal_size"]
+            "corrupted_df17_rejected", "weakest_pulse_exactly_10dB_above_floor", "pure_noise", "multi_frame", "same_frame_twice_in_a_row", "second_reader_alive", "reader_in_debug_mode", "sessions", "session_buffer_11_or_later", "big_busy_first_buffer", "buffer_longer_than_nominal_size",
+            "iq_reads_through_read_callback", "strong_frames_over_a_floor_above_0.316"]
 
 
 def reader():
@@ -267,7 +268,70 @@ def mkbig(rng):
     return {"buffers": [fr], "leads": [rng.choice((0, 1, 30))], "tails": [0], "P": rng.choice((0.02, 0.04)), "bseed": rng.getrandbits(40), "big": 1}
 
 
-MONITORS = {"buffer": m_buffer, "session": m_session}
+def m_callback(ctx, case):
+    """the same buffers through the reader's real entry point: complex IQ reads handed to _read_callback (which takes the
+    magnitudes, appends them and runs the buffer processor once the nominal buffer size is reached) with the frames it
+    hands to handle_messages collected.  Normalised IQ magnitudes legitimately reach 1.414: a strong frame (1.0-1.4) over
+    a floor that leaves it 10-13 dB must arrive like any other"""
+    import random as _r
+    import cmath
+    import numpy as np
+    rng = _r.Random(case["bseed"])
+    buf, exp, info = build(rng, case)
+    with contextlib.redirect_stdout(io.StringIO()):
+        from pyModeS.extra import rtlreader
+    total = max(int(rtlreader.buffer_size), len(buf)) + rng.choice((0, 1, 77))
+    fam, L, P = case["fam"], case["L"], case["P"]
+    while len(buf) < total:
+        buf.append(noise_sample(rng, fam, L, P))
+    if case.get("pure"):
+        # magnitudes must come out exactly: phases on the axes only
+        ph = (1, -1, 1j, -1j)
+        data = np.array([a * ph[rng.randrange(4)] for a in buf], dtype=np.complex128)
+    else:
+        data = np.array([cmath.rect(a, rng.uniform(-3.14159, 3.14159)) for a in buf], dtype=np.complex128)
+    r = reader()
+    got_batches = []
+    r.handle_messages = lambda messages: got_batches.append(list(messages))
+    cuts = sorted(set([0, len(data)] + ([len(data) // 2] if case["bseed"] % 2 else [int(rtlreader.read_size), len(data) - 5])))
+    res = ("ok", None)
+    with contextlib.redirect_stdout(io.StringIO()):
+        for a, b in zip(cuts, cuts[1:]):
+            res = call(r._read_callback, data[a:b], None)
+            if res[0] != "ok":
+                break
+    ctx.ev()
+    short = {"fam": fam, "L": L, "P": P, "bseed": case["bseed"], "regime": case["regime"], "samples": len(data),
+             "frames": [(f["start"], f["n"], f["amp"], f["hex"], f["valid"]) for f in info]}
+    if res[0] != "ok":
+        ctx.violation("read_callback-raises-%s" % res[1], observed=res[1:], **short)
+        return
+    if len(got_batches) != 1:
+        ctx.violation("read_callback-did-not-process-a-full-buffer-once", batches=len(got_batches), **short)
+        return
+    try:
+        got = [m[0] for m in got_batches[0]]
+    except Exception:
+        ctx.violation("read_callback-shape", observed=repr(got_batches[0])[:200], **short)
+        return
+    for g in got:
+        x = int(g, 16)
+        if len(g) == 28 and (x >> 107) == 17 and bits.polymod(x, 112) != 0:
+            ctx.violation("df17-with-bad-checksum-returned", message=g, **short)
+            return
+    if got != exp:
+        missing = [e for e in exp if e not in got]
+        extra = [g for g in got if g not in exp]
+        key = "frame-lost" if missing and not extra else "frame-corrupted-or-spurious" if extra else "frames-reordered-or-duplicated"
+        ctx.violation(key + "-through-read_callback", expected=exp, observed=got, **short)
+        return
+    ctx.hit("iq_reads_through_read_callback")
+    if exp and min(f["amp"] for f in info if f["valid"]) > 1.0 and L > 0.3163:
+        ctx.hit("strong_frames_over_a_floor_above_0.316")
+    ctx.nontrivial(("c", case["bseed"], tuple(exp)))
+
+
+MONITORS = {"buffer": m_buffer, "session": m_session, "callback": m_callback}
 
 
 def rand_frame(rng, kind=None):
@@ -278,12 +342,14 @@ def rand_frame(rng, kind=None):
     return "%0*X" % (n // 4, x), n
 
 
-def mkcase(rng, regime, nframes=None, force_df=None):
+def mkcase(rng, regime, nframes=None, force_df=None, strong=False):
     fam = rng.choice(("const", "uniform", "rayleigh"))
     nfr = nframes if nframes is not None else rng.choice((1, 1, 2, 3, 5, 8, 12))
     amps = []
     for _ in range(nfr):
         amps.append(rng.choice((0.3, 1.4, rng.uniform(0.3, 1.4), rng.uniform(0.3, 0.5))))
+    if strong:
+        amps = [rng.choice((1.4, rng.uniform(1.01, 1.4))) for _ in range(nfr)]   # every frame above 1.0 (IQ magnitudes reach 1.414)
     amin = min(amps) if amps else 0.3
     if regime == "R1":
         P = rng.uniform(0.002, 0.19) * amin
@@ -362,6 +428,14 @@ def cases(ctx):
         yield "buffer", mkcase(rng, "R2")
     for k in range(ctx.share(200 if quick else 5000)):
         yield "buffer", mkcase(rng, "noise", 0)
+    for k in range(ctx.share(160 if quick else 3000)):
+        yield "buffer", mkcase(rng, "R2", None, None, True)      # strong frames only, floor up to 0.44
+    for k in range(max(3, ctx.share(64 if quick else 640))):
+        c = mkcase(rng, ("R2", "R2", "R1")[k % 3], rng.choice((1, 2, 3, 5)), None, k % 3 != 2)
+        c.pop("second", None)
+        if c.pop("short_tail", None):
+            c["tail"] = 600
+        yield "callback", c
     for k in range(ctx.share(48 if quick else 800)):
         yield "session", mksession(rng)
     for k in range(ctx.share(16 if quick else 160)):
